@@ -68,8 +68,13 @@ fn render(i: Instant, r: u64) -> String {
 /// server clock minus request instant, in seconds, for the authenticator operation sequences
 const OP_CLOCKS: [i64; 5] = [0, 900, 901, -901, 960];
 
+/// (region, service, allowed mismatch in seconds) the operation is carried out under; the request is scoped to the first
+pub const OP_CONFIGS: [(&str, &str, i64); 3] = [("us-east-1", "service", 900), ("us-east-1", "other-service", 900), ("us-east-1", "service", 300)];
+/// number of operation symbols: kind (3) x configuration (3) x clock (5)
+pub const OP_SYMBOLS: u64 = 3 * 3 * 5;
+
 /// Run one operation sequence on one authenticator; None = every step behaved as if it were alone.
-fn authenticator_ops(seq: &[u64], carrier: Carrier) -> Option<(usize, String, String)> {
+pub fn authenticator_ops(seq: &[u64], carrier: Carrier) -> Option<(usize, String, String)> {
     use scratchstack_aws_signature::canonical::CanonicalRequest;
     use std::panic::{catch_unwind, AssertUnwindSafe};
     let r0 = e2e::base_instant();
@@ -84,25 +89,37 @@ fn authenticator_ops(seq: &[u64], carrier: Carrier) -> Option<(usize, String, St
         let auth = cr.get_authenticator(&reqs).map_err(|e| (0, "authenticator".to_string(), e.to_string()))?;
         for (pos, op) in seq.iter().enumerate() {
             let clock = OP_CLOCKS[(*op % OP_CLOCKS.len() as u64) as usize];
-            let kind = *op / OP_CLOCKS.len() as u64;
+            let (region, service, window) = OP_CONFIGS[((*op / OP_CLOCKS.len() as u64) % 3) as usize];
+            let kind = *op / (OP_CLOCKS.len() as u64 * 3);
             let server = crate::sut::to_chrono(Instant::new(r0.secs + clock, 0));
-            // the request instant is r0; the server clock is r0 + clock
-            let fresh = clock.abs() <= 900;
-            let mm = chrono::Duration::minutes(15);
+            // the request instant is r0 and its credential is scoped to the first configuration; the server clock is
+            // r0 + clock; the operation passes iff the scope is the configured one and the instant is in this window
+            let fresh = clock.abs() <= window && service == "service";
+            let mm = chrono::Duration::seconds(window);
             let (ok, consulted) = match kind {
-                0 => (auth.prevalidate(&cfg.region, &cfg.service, server, mm).is_ok(), false),
+                0 => (auth.prevalidate(region, service, server, mm).is_ok(), false),
                 _ => {
+                    // the provider hands out the key for whatever scope it is asked for (so that only the rules
+                    // before it can refuse)
                     let mut provider = ProvSpec::standard().to_provider();
-                    let target = if kind == 2 { auth.clone() } else { auth.clone() };
+                    let target = auth.clone();
                     let a = if kind == 2 { &target } else { &auth };
-                    let (res, _) = crate::env::run_bounded(a.validate_signature(&cfg.region, &cfg.service, server, mm, &mut provider), 64);
+                    let (res, _) = crate::env::run_bounded(a.validate_signature(region, service, server, mm, &mut provider), 64);
                     (matches!(res, Some(Ok(_))), provider.touched())
                 }
             };
             if ok != fresh || (kind != 0 && consulted != fresh) {
                 return Err((
                     pos,
-                    format!("{} with the server clock {} s after the request instant: {}", ["prevalidate", "validate_signature", "validate_signature on a clone"][kind as usize], clock, if fresh { "Ok, provider consulted" } else { "refused, provider not consulted" }),
+                    format!(
+                        "{} for ({}, {}) with a window of {} s and the server clock {} s after the request instant: {}",
+                        ["prevalidate", "validate_signature", "validate_signature on a clone"][kind as usize],
+                        region,
+                        service,
+                        window,
+                        clock,
+                        if fresh { "Ok, provider consulted" } else { "refused, provider not consulted" }
+                    ),
                     format!("ok={} provider consulted={}", ok, consulted),
                 ));
             }
@@ -237,8 +254,8 @@ pub fn run(ctx: &Ctx) -> Report {
     //     under another clock vouches for nothing
     let mut st = st;
     {
-        let n_ops = 3 * OP_CLOCKS.len() as u64;
-        let depth = 3u32;
+        let n_ops = OP_SYMBOLS;
+        let depth = if thorough { 3u32 } else { 2 };
         let nseq = crate::enumr::seq_count(n_ops, depth);
         let base2 = total;
         let part = par_sweep(nseq * 2, |i, st| {
@@ -270,7 +287,7 @@ pub fn run(ctx: &Ctx) -> Report {
     Report {
         stats: st,
         rule: format!(
-            "{} server instants (plain, +1 ns, +999999999 ns, leap day, month/year/day boundaries) x {} offsets request-server (every whole second in [-1200 s, +1200 s]; +-1, 2, 1000 ns, 1 ms, 999999999 ns around both bounds; {} millisecond points within +-2 s of both bounds; +-1 h, 1 day, 1 year, 901 s) x {} renderings (basic/extended Z, +05:30, -08:00, +14:00, -12:00, 9/12-digit fractions with '.' and ',', fractions of 20, 49 and 309 digits, +-00:01, -09:30, +12:45, -0000) x carrier x {} lifetime decorations (none, or X-Amz-Expires = 60 .. 604800 s as a signed query parameter / signed header next to an Expires header) x session token present or not; every request freshly and correctly signed (scope date = UTC date of its instant). Oracle: Ok iff |t - now| <= 900 s at nanosecond resolution; otherwise SignatureDoesNotMatch/403 with an empty provider log; (2) every sequence of 1..3 operations {{prevalidate, validate_signature, validate_signature on a clone}} x 5 server clocks (0, +900, +901, -901, +960 s) on one authenticator object built through the unstable API from a valid request, on both carriers, each operation judged alone. states = (inside, side, stage)",
+            "{} server instants (plain, +1 ns, +999999999 ns, leap day, month/year/day boundaries) x {} offsets request-server (every whole second in [-1200 s, +1200 s]; +-1, 2, 1000 ns, 1 ms, 999999999 ns around both bounds; {} millisecond points within +-2 s of both bounds; +-1 h, 1 day, 1 year, 901 s) x {} renderings (basic/extended Z, +05:30, -08:00, +14:00, -12:00, 9/12-digit fractions with '.' and ',', fractions of 20, 49 and 309 digits, +-00:01, -09:30, +12:45, -0000) x carrier x {} lifetime decorations (none, or X-Amz-Expires = 60 .. 604800 s as a signed query parameter / signed header next to an Expires header) x session token present or not; every request freshly and correctly signed (scope date = UTC date of its instant). Oracle: Ok iff |t - now| <= 900 s at nanosecond resolution; otherwise SignatureDoesNotMatch/403 with an empty provider log; (2) every sequence of 1..2 (thorough 3) operations {{prevalidate, validate_signature, validate_signature on a clone}} x 3 configurations (the request's own scope, another service, a 5-minute window) x 5 server clocks (0, +900, +901, -901, +960 s) on one authenticator object built through the unstable API from a valid request, on both carriers, each operation judged alone. states = (inside, side, stage)",
             n_serv, n_off, if thorough { "all" } else { "every 25th of the" }, n_rend, n_life
         ),
         bounds: json!({"servers": n_serv, "offsets": n_off, "renderings": n_rend}),
